@@ -27,7 +27,7 @@ static Plan ot_generate(uint64_t seed, const Tier &tier)
 	unsigned m = (unsigned)g.below(10);
 	if (tier.opt.count("nofaults")) m = 0;
 	if (m < 5) { /* honest */ }
-	else if (m < 8) p.ops.push_back(Op("f_byz_chooser", (int64_t)g.below(6), (int64_t)g.below(64), (int64_t)g.below(64)));
+	else if (m < 8) p.ops.push_back(Op("f_byz_chooser", (int64_t)g.below(9), (int64_t)g.below(64), (int64_t)g.below(64)));
 	else p.ops.push_back(Op("f_mitm_mut", (int64_t)g.below(70), (int64_t)g.below(2)));
 	return p;
 }
@@ -90,7 +90,7 @@ static RunResult ot_execute(const Plan &plan)
 		if (variant == 1) return otC.Choose_interactive_OneOutOfN(sigma, N, Mout, in, out);
 		return otC.Choose_interactive_OneOutOfN_optimized(sigma, N, Mout, in, out);
 	};
-	int bk = byz ? (int)(fop->arg(0) % 6) : -1;
+	int bk = byz ? (int)(fop->arg(0) % 9) : -1;
 	bool byz_applicable = true;
 	auto byz_chooser = [&](std::istream &in, std::ostream &out) -> bool
 	{
@@ -110,6 +110,10 @@ static RunResult ot_execute(const Plan &plan)
 			case 2: mpz_set_ui(x, 0); break;
 			case 3: mpz_set(y, G.p); break;
 			case 4: mpz_add(z[i1], z[i1], G.p); break; // representative >= p
+			// the same group element under another integer: coinciding queries that an integer comparison does not see
+			case 6: if (z.size() < 2 || i1 == i2) { i2 = (i1 + 1) % z.size(); } if (z.size() < 2) byz_applicable = false; else mpz_sub(z[i2], z[i1], G.p); break;
+			case 7: mpz_sub(z[i1], z[i1], G.p); break; // negative representative of a member
+			case 8: if (z.size() < 2) byz_applicable = false; else for (size_t i = 1; i < z.size(); i++) { Z m; mpz_mul_ui(m, G.p, (unsigned long)i); mpz_sub(z[i], z[0], m); } break; // z_i = z_0 - i*p for all i
 			case 5: { Z e; do { tmcg_mpz_wrandomm(t, G.p); mpz_powm(e, t, G.q, G.p); } while (!zcmp_ui(e, 1) || !zcmp_ui(t, 0));
 				mpz_set(x, t); break; }
 		}
